@@ -5,11 +5,13 @@ import z3
 
 from .interp import Builtin, PyList, as_seq2
 from .sym import SInt, SSeq, SV, Unsupported, to_int, wrap
-from .symtheory import Expr, ExprV, SymV, diff_f
+from .symtheory import Expr, ExprV, SymV, diff_f, name_f
 
 
 class SymMatrix(SV):
     """sympy.Matrix of expressions: rows x cols, cell(r, c) -> z3 Expr term."""
+
+    _count = 0
 
     def __init__(self, rows, cols, cell):
         self.rows, self.cols, self.cell = rows, cols, cell
@@ -24,10 +26,19 @@ class SymMatrix(SV):
                 if not (isinstance(self.cols, int) and self.cols == 1) and not z3.eq(z3.simplify(to_int(self.cols)), z3.IntVal(1)):
                     raise Unsupported("jacobian of a non-column matrix")
                 cell = self.cell
-                # D-diff: Matrix(F).jacobian(X)[r, c] = diff(F_r, X_c)
-                return SymMatrix(self.rows, X.len_z(), lambda r, c: diff_f(cell(r, z3.IntVal(0)), X.at(c).z))
+                # D-diff (weakened): Matrix(F).jacobian(X)[r, c] = jac(F_r, X_c), which is diff(F_r, X_c) WHEN it is in closed form
+                jacobian_axioms(I.path)
+                return SymMatrix(self.rows, X.len_z(), lambda r, c: jac_f(cell(r, z3.IntVal(0)), X.at(c).z))
 
             return Builtin("Matrix.jacobian", jac)
+        if name == "free_symbols":
+            SymMatrix._count += 1
+            mfs = z3.Function(f"matrix_free_symbol!{SymMatrix._count}", Sym, z3.BoolSort())
+            return FreeSymsV(lambda s: mfs(s))
+        if name == "xreplace":
+            return Builtin("Matrix.xreplace", lambda I, a, k: xreplace_matrix(I, self, a[0]))
+        if name == "has":
+            return Builtin("Matrix.has", lambda I, a, k: matrix_has(I, self, a[0]))
         return NotImplemented
 
     def pvc_iter(self, I):
@@ -69,6 +80,19 @@ def install(M):
     from .models import TypeV
 
     M.froms[("sympy", "Symbol")] = TypeV("Symbol", lambda I, v: isinstance(v, SymV))
+    M.froms[("sympy", "Derivative")] = TypeV("Derivative", lambda I, v: False)
+
+    def dummy(I, args, kw):
+        # Dummy(s.name, real=True): a NEW symbol, created for the symbol s whose name it borrows (D-dummy)
+        a = args[0] if args else None
+        if not (a is not None and hasattr(a, "z") and z3.is_app(a.z) and a.z.decl().eq(name_f)):
+            raise Unsupported("Dummy not named after a symbol")
+        if set(kw) - {"real"} or (kw.get("real") is not True):
+            raise Unsupported("Dummy with other assumptions than real=True")
+        dummy_axioms(I.path)
+        return SymV(dummy_f(a.z.arg(0)))
+
+    M.froms[("sympy", "Dummy")] = Builtin("sympy.Dummy", dummy)
     for n in ("cse", "simplify", "diff", "ccode"):
         M.froms[("sympy", n)] = Builtin("sympy." + n, lambda I, a, k, n=n: (_ for _ in ()).throw(Unsupported(f"sympy.{n} (dependency contract not modelled here)")))
     M.froms[("sympy.utilities.lambdify", "lambdify")] = Builtin("lambdify", lambda I, a, k: (_ for _ in ()).throw(Unsupported("lambdify")))
@@ -77,3 +101,214 @@ def install(M):
     from .models import ModelModule
 
     M.modules["sympy"] = ModelModule("sympy", {})
+
+
+# ------------------------------------------------------------------------------------------------------------------------
+# Real-valued differentiation by renaming (python._jacobian): Dummy symbols, xreplace, Matrix.has(Derivative)
+#
+#   closed_form(e)    e contains no unevaluated binder node (Derivative / Integral / Subs).  D-cse, D-simp and D-lam are assumed for
+#                     closed-form expressions ONLY: cse abstracts the operand of a Derivative into a temporary and simplify then
+#                     evaluates Derivative(_t0, v) to 0 (defect D12).
+#   D-diff (weakened) Matrix(F).jacobian(X)[r, c] = jac(F_r, X_c);  closed_form(jac(e, x)) => jac(e, x) = diff(e, x), where diff(e, x)
+#                     is the SPEC: an expression denoting the partial derivative of the real function e.  Nothing is promised about an
+#                     entry sympy leaves unevaluated.
+#   D-dummy           Dummy(...) returns a symbol distinct from every other symbol (injective in the symbol it is created for, and
+#                     different from every symbol of the arguments).
+#   D-xr              M.xreplace(rho)[r, c] = xreplace(M[r, c], rho); a renaming neither creates nor removes binder nodes.
+#   D-ren             (mathematics) differentiation commutes with an injective renaming of the symbols:
+#                     rho_b o rho_a = id on the symbols of e and x  =>  xreplace(diff(xreplace(e, rho_a), rho_a[x]), rho_b) = diff(e, x).
+
+from .symtheory import Sym  # noqa: E402
+
+Ren = z3.ArraySort(Sym, Sym)
+xr_f = z3.Function("xreplace", Expr, Ren, Expr)
+jac_f = z3.Function("sympy_jacobian_entry", Expr, Sym, Expr)
+closed_f = z3.Function("closed_form", Expr, z3.BoolSort())
+dummy_f = z3.Function("dummy_for", Sym, Sym)
+undummy_f = z3.Function("dummy_origin", Sym, Sym)
+real_unknown_f = z3.Function("is_real_is_None", Sym, z3.BoolSort())
+is_real_f = z3.Function("is_real", Sym, z3.BoolSort())
+dummy_free_f = z3.Function("no_symbol_created_during_the_call", Expr, z3.BoolSort())
+
+
+def is_dummy(y):
+    """y was created by Dummy() during the call under verification"""
+    return dummy_f(undummy_f(y)) == y
+
+
+def once(P, tag, thunk):
+    done = P.ghost.setdefault("sympy_axioms", set())
+    if tag not in done:
+        done.add(tag)
+        for f in thunk():
+            P.facts.append(f)
+
+
+def jacobian_axioms(P):
+    def mk():
+        e, x = z3.Const("jx!e", Expr), z3.Const("jx!x", Sym)
+        yield z3.ForAll([e, x], z3.Implies(closed_f(jac_f(e, x)), jac_f(e, x) == diff_f(e, x)), patterns=[jac_f(e, x)])
+
+    once(P, "D-diff", mk)
+
+
+def dummy_axioms(P):
+    def mk():
+        s = z3.Const("dm!s", Sym)
+        yield z3.ForAll([s], undummy_f(dummy_f(s)) == s, patterns=[dummy_f(s)])
+
+    once(P, "D-dummy", mk)
+
+
+class SymComp:
+    """{... for s in <abstract set of symbols> if <cond>}: bound symbol, membership/filter condition and the element template."""
+
+    def __init__(self, var, dom, elt):
+        self.var, self.dom, self.elt = var, dom, elt
+
+
+class FreeSymsV(SV):
+    """M.free_symbols of a symbolic matrix: an abstract set of symbols; only comprehensions over it are modelled."""
+
+    pvc_type = "set"
+
+    def __init__(self, member):
+        self.member = member
+
+    def pvc_comprehension(self, I, gen, elt_thunk):
+        return comprehend(I, gen, elt_thunk, lambda s0: (SymV(s0), self.member(s0)))
+
+
+def comprehend(I, gen, elt_thunk, bind):
+    from .interp import Frame, wrap_b
+    from .sym import to_bool
+
+    s0 = z3.Const(I.path.names.fresh("cs"), Sym)
+    target, dom = bind(s0)
+    fr = Frame(None, {}, I.frame)
+    fr.is_comp = True
+    fr.module = None
+    I.frames.append(fr)
+    try:
+        I.assign(gen.target, target)
+        conds = [dom]
+        for cond in gen.ifs:
+            c = I.truth(I.eval(cond))
+            conds.append(z3.BoolVal(c) if isinstance(c, bool) else to_bool(wrap_b(c)))
+        elt = elt_thunk()
+    finally:
+        I.frames.pop()
+    return SymComp(s0, z3.And(*conds), elt)
+
+
+class RenMapV(SV):
+    """A dict Symbol -> Symbol given by comprehension: has(y), get(y) as z3 terms; as an xreplace argument it is the total renaming
+    `array` (identity outside the keys), a fresh array constant with its definition as a fact (so select terms stay matchable)."""
+
+    pvc_type = "dict"
+    _count = 0
+
+    def __init__(self, P, has, get):
+        RenMapV._count += 1
+        self.has, self.get_z = has, get
+        self.array = z3.Const(f"renaming!{RenMapV._count}", Ren)
+        y = z3.Const(f"rn!y{RenMapV._count}", Sym)
+        P.facts.append(z3.ForAll([y], self.array[y] == z3.If(has(y), get(y), y), patterns=[self.array[y]]))
+
+    def pvc_getattr(self, I, name):
+        if name == "get":
+
+            def get(I, args, kw):
+                k = args[0]
+                if not isinstance(k, SymV):
+                    raise Unsupported("renaming.get of a non-symbol")
+                if len(args) == 2 and isinstance(args[1], SymV) and z3.eq(args[1].z, k.z):
+                    return SymV(self.array[k.z])  # d.get(s, s) IS the total renaming
+                if len(args) == 2 and isinstance(args[1], SymV):
+                    return SymV(z3.If(self.has(k.z), self.get_z(k.z), args[1].z))
+                raise Unsupported("renaming.get without a symbol default")
+
+            return Builtin("dict.get", get)
+        if name == "items":
+            return Builtin("dict.items", lambda I, a, k: RenItemsV(self))
+        return NotImplemented
+
+    def pvc_contains(self, I, x):
+        if isinstance(x, SymV):
+            return wrap(self.has(x.z))
+        return False
+
+    def pvc_getitem(self, I, k):
+        if not isinstance(k, SymV):
+            raise Unsupported("renaming[...] of a non-symbol")
+        I.raise_if(z3.Not(self.has(k.z)), "KeyError")
+        return SymV(self.get_z(k.z))
+
+
+class RenItemsV(SV):
+    def __init__(self, m):
+        self.m = m
+
+    def pvc_comprehension(self, I, gen, elt_thunk):
+        m = self.m
+        return comprehend(I, gen, elt_thunk, lambda s0: ((SymV(s0), SymV(m.get_z(s0))), m.has(s0)))
+
+
+def renaming_from_pairs(I, comp):
+    """dict(<SymComp of (key, value) pairs>).  Keys: the bound symbol itself, or its Dummy (inverted through D-dummy)."""
+    P = I.path
+    if not (isinstance(comp.elt, tuple) and len(comp.elt) == 2 and all(isinstance(t, SymV) for t in comp.elt)):
+        raise Unsupported("dict comprehension over symbols that is not symbol -> symbol")
+    kz, vz, s0, dom = comp.elt[0].z, comp.elt[1].z, comp.var, comp.dom
+    if z3.eq(kz, s0):
+        return RenMapV(P, lambda y: z3.substitute(dom, (s0, y)), lambda y: z3.substitute(vz, (s0, y)))
+    if kz.decl().eq(dummy_f) and z3.eq(kz.arg(0), s0):
+        # key Dummy(s): y is a key <=> y = dummy_for(s) for the s it was created for (dummy_origin(y)), and that s is in the domain
+        dummy_axioms(P)
+        return RenMapV(P, lambda y: z3.And(is_dummy(y), z3.substitute(dom, (s0, undummy_f(y)))), lambda y: z3.substitute(vz, (s0, undummy_f(y))))
+    raise Unsupported("dict comprehension whose keys are neither the bound symbols nor their Dummy symbols")
+
+
+def xreplace_matrix(I, m, ren):
+    if not isinstance(ren, RenMapV):
+        raise Unsupported("xreplace with something else than a symbol renaming")
+    P = I.path
+    rho = ren.array
+    e = z3.Const("xr!e", Expr)
+    once(P, f"D-xr:{rho}", lambda: [z3.ForAll([e], closed_f(xr_f(e, rho)) == closed_f(e), patterns=[xr_f(e, rho)])])
+    earlier = P.ghost.setdefault("renamings", [])
+    for rho_a in earlier:
+        # D-ren for the pair (rho_a, rho): stated with x = rho[y] so that the only trigger is the shape of the term itself
+        s, y = z3.Const("rn!s", Sym), z3.Const("rn!v", Sym)
+        inv = z3.Const(P.names.fresh("renaming_undone"), z3.BoolSort())
+        P.facts.append(inv == z3.ForAll([s], z3.Implies(z3.Not(is_dummy(s)), rho[rho_a[s]] == s), patterns=[rho_a[s]]))
+        P.facts.append(
+            z3.ForAll(
+                [e, y],
+                z3.Implies(z3.And(inv, dummy_free_f(e), z3.Not(is_dummy(rho[y])), rho_a[rho[y]] == y), xr_f(diff_f(xr_f(e, rho_a), y), rho) == diff_f(e, rho[y])),
+                patterns=[xr_f(diff_f(xr_f(e, rho_a), y), rho)],
+            )
+        )
+    earlier.append(rho)
+    cell = m.cell
+    return SymMatrix(m.rows, m.cols, lambda r, c: xr_f(cell(r, c), rho))
+
+
+def matrix_has(I, m, what):
+    """M.has(Derivative): False => every entry is in closed form (the only direction the callers rely on)."""
+    from .models import TypeV
+    from .sym import SBool
+
+    if not (isinstance(what, TypeV) and what.name == "Derivative"):
+        raise Unsupported("Matrix.has of something else than Derivative")
+    P = I.path
+    b = z3.Const(P.names.fresh("has_unevaluated_derivative"), z3.BoolSort())
+    r, c = z3.Int("hs!r"), z3.Int("hs!c")
+    body = z3.Implies(z3.And(r >= 0, r < to_int(m.rows), c >= 0, c < to_int(m.cols)), closed_f(m.cell(r, c)))
+    try:
+        q = z3.ForAll([r, c], body, patterns=[m.cell(r, c)])
+    except z3.Z3Exception:
+        q = z3.ForAll([r, c], body)
+    P.facts.append(z3.Implies(z3.Not(b), q))
+    P.ghost.setdefault("no_closed_form", []).append(b)  # (a caller that inlines the helper sees the same refusal condition)
+    return SBool(b)
